@@ -793,7 +793,38 @@ def run_c18(ctx):
         cases = ctx.rng.sample(cases, 2500)
     run_histories(ctx, cases)
 
+# ------------------------------------------------------------------------------------------- EXTRA: behaviour beyond the listed properties
+def run_extra(ctx):
+    q = ctx.tier == "quick"
+    u = universe(ctx.tier, ["AtLeast", "Any", "Xor", "Imply"], leaves=[LEAF("a"), LEAF("b"), LEAF("t", -1, 1)], values=[0, 1, 2], signs=(0, -1), ids=("gen", "exp"), comp=2, kids=2)
+    r = ctx.model_check("PuanBuild", u, invariants=["C03"], dump=True, name="Build_extra")
+    cases = spec_cases(ctx, r) + random_cases(ctx, 200 if q else 2000, ["depth>=3", "explicit_id"], max_box=64)
+    ctx.pmap(drivers.drv_x_model, _stamp(cases, "drv_x_model"))
+    pc = poly_universe(ctx, ["RowBoundsExact"], "Poly_extra", bs=range(-1, 2), bounds=((0, 1), (-1, 2))) + random_polys(ctx, 300 if q else 3000)
+    ctx.pmap(drivers.drv_x_poly, _stamp(pc, "drv_x_poly"))
+    rng = ctx.rng
+    ac = []
+    for k in range(400 if q else 4000):
+        n = rng.randint(1, 5)
+        if k % 2:
+            ac.append({"kind": "vec", "x": [rng.randint(-3, 3) for _ in range(n)], "delta": [rng.randint(1, 3)] * n if k % 4 == 1 else [rng.randint(0, 3) for _ in range(n)]})
+        else:
+            ac.append({"kind": "mat", "x": [[0 if rng.random() < 0.4 else rng.randint(-4, 4) for _ in range(n)] for _ in range(rng.randint(1, 4))]})
+    ctx.pmap(drivers.drv_x_arrays, _stamp(ac, "drv_x_arrays"))
+    mc = []
+    for k in range(300 if q else 3000):
+        ids = rng.sample(["a", "b", "c", "d", "B", "Z", "k1", "k2"], rng.randint(1, 5))
+        mc.append({"d": [[i, rng.randint(0, 5)] for i in ids[: rng.randint(0, len(ids))]], "keys": rng.sample(ids + ["zz"], rng.randint(0, min(3, len(ids) + 1))),
+                   "default": rng.choice([None, 0, 7]), "value": rng.randint(10, 20), "lo": rng.randint(-1, 2), "hi": rng.randint(-1, 2), "ids": ids})
+    ctx.pmap(drivers.drv_x_misc, _stamp(mc, "drv_x_misc"))
+    ctx.validate()
+
+EXTRA_CLAUSES = {"short_of", "from_short", "variables", "atomic_compound", "reduced_cols", "reduced_projection", "row_distribution", "row_stretch_int",
+                 "nb_addition", "nb_subtraction", "nb_all", "nb_on_off", "nb_on", "nb_off", "reduce2d_first", "reduce2d_last", "ranking",
+                 "or_get", "or_replace", "bounds_order", "bool_dtype", "compound_bounds", "sorted_by_id", "same_ids", "no_exception"}
+
 PROPS = {
+    "EXTRA": {"run": run_extra, "clauses": EXTRA_CLAUSES},
     "C09": {"run": run_c09, "clauses": {"store_unchanged", "no_unexplained_overwrite", "result_as_fresh", "result_as_state", "old_unchanged", "no_exception"}},
     "C18": {"run": run_c18, "clauses": {"refused_iff_clash", "is_direct_build", "id_kept", "old_unchanged", "no_exception"}},
     "C13": {"run": run_c13, "clauses": {m + ":" + c for m in drivers.METHODS for c in ("shape", "exact", "prio_dense", "rank_dense", "zeros_signs", "ties", "order", "dominance", "unknown_method")} | {"no_exception"}},
@@ -845,8 +876,15 @@ def finish(ctx):
             viol_files.append(p)
     for k, v in sorted(getattr(ctx, "known_printed", {}).items()):
         print("KNOWN-FINDING: property=%s %s" % (ctx.pid, v))
+    if ctx.pid == "EXTRA":
+        import collections
+        per = collections.Counter(c for v in mine.values() for c in v)
+        for c, k in sorted(per.items()):
+            print("EXTRA-BEHAVIOUR clause=%s mismatching_events=%d (not a listed property; see DESIGN section 10 / observations)" % (c, k))
+        ctx.notes.append("mismatches per clause: %s" % dict(per))
     for p in viol_files:
-        print("VIOLATION property=%s replay=%s" % (ctx.pid, p))
+        if ctx.pid != "EXTRA":
+            print("VIOLATION property=%s replay=%s" % (ctx.pid, p))
     if other:
         cl = sorted({c for v in other.values() for c in v})
         print("NOTE %d events failed clauses of other properties (%s); not an alarm for %s" % (len(other), ",".join(cl), ctx.pid))
@@ -855,6 +893,8 @@ def finish(ctx):
         ctx.pid, ctx.tier, sum(x["distinct"] for x in ctx.p1), len(ctx.events),
         len(ctx.events) - len(ctx.rejects) - outside, len(mine), outside, time.time() - ctx.t0,
         sum(x["wall_s"] for x in ctx.p1), getattr(ctx, "p2_wall", 0.0), ctx.p3_wall))
+    if ctx.pid == "EXTRA":
+        return 0
     return 1 if mine else 0
 
 def _sample(ev):
